@@ -329,6 +329,23 @@ def write_replay(pid, sub, sig, case, f_kind, f_detail, f_where, prefix=''):
     return path
 
 
+RERUN_TRIALS = 40
+
+
+def _disturb_allocator(trial):
+    """Allocate and release arrays of several sizes filled with non-zero bytes (then with zeros), so that a later
+    np.empty of the code under test is handed memory with other contents than last time."""
+    import numpy as _np
+    fill = 0xFF if trial % 2 == 0 else 0x00
+    keep = []
+    for size in (8, 16, 24, 32, 48, 64, 96, 128, 256, 512, 1024, 4096):
+        for _ in range(3):
+            a = _np.empty(size, dtype=_np.uint8)
+            a.fill(fill if size % 16 else (fill ^ 0x01))
+            keep.append(a)
+    del keep
+
+
 def run_case(sub, case):
     """Run one case outside Hypothesis. Returns (status, sig, failure) with status in
     {'pass','discard','fail'}.  VERIF_REPRO tells timing-sensitive checks (C18) that a recorded case is being
@@ -456,6 +473,7 @@ def run_property(mod, tier, sd, replay=None, only=None):
         return 2
 
     subs_by_name = {s.name: s for s in subs}
+    flaky = []
     for bkey, b in sorted(total.buckets.items()):
         sig = b['sig']
         if b['tag'] and b['tag'] in known:
@@ -474,16 +492,40 @@ def run_property(mod, tier, sd, replay=None, only=None):
             case = pickle.loads(b['pickle'])
             status, sig2, f = run_case(sub, case)
         if status != 'fail':
-            notes.append('bucket %s did not reproduce outside hypothesis (flaky?)' % sig)
-            print('HARNESS-ERROR non-reproducible failure bucket %s: first detail: %s' % (sig, b['detail'][:600]))
+            # The oracle rejected this case during generation but accepts it now.  A result that changes between two
+            # executions of the same case is itself a defect of the code under test when it comes from memory the
+            # library did not initialise: the recorded case is re-run with the allocator disturbed between the trials,
+            # and counts as a violation as soon as the oracle rejects it again.
+            case = pickle.loads(b['pickle'])
+            fails = 0
+            for trial in range(RERUN_TRIALS):
+                _disturb_allocator(trial)
+                status, sig2, f2 = run_case(sub, case)
+                if status == 'fail':
+                    fails += 1
+                    f = f2
+                    if fails >= 2:
+                        break
+            if fails:
+                f.detail = '%s [intermittent: the same case passed on other executions (%d of %d re-runs failed)]' % (f.detail, fails, trial + 1)
+                status = 'fail'
+        if status != 'fail':
+            notes.append('bucket %s did not reproduce outside hypothesis in %d re-runs (flaky?)' % (sig, RERUN_TRIALS + 2))
+            flaky.append((sig, b['detail'][:600]))
             try:
                 write_replay(pid, sub, sig, pickle.loads(b['pickle']), b['kind'], b['detail'], b['where'], prefix='flaky_')
             except Exception:  # noqa: BLE001
                 pass
-            write_evidence(mod, tier, sd, total, per_sub, known_hit, violations, time.time() - t0, notes, replayed)
-            return 2
+            continue
         path = write_replay(pid, sub, sig, case, f.kind, f.detail, f.where)
         violations.append((sig, path, f))
+
+    if flaky and not violations:
+        # nothing reproducible was found: the failures seen once cannot be told from harness noise -> not a verdict
+        for sig, detail in flaky:
+            print('HARNESS-ERROR non-reproducible failure bucket %s: first detail: %s' % (sig, detail))
+        write_evidence(mod, tier, sd, total, per_sub, known_hit, violations, time.time() - t0, notes, replayed)
+        return 2
 
     for tag, cnt in sorted(known_hit.items()):
         print('KNOWN-FINDING: property=%s %s: %s (reproduced %d times this run)' % (pid, tag, known[tag]['what'], cnt))
